@@ -849,7 +849,9 @@ def r152(ctx, repo):
         raise AnalysisError("pnpoly.points_in_poly: expected one return "
                             "value")
     rv = deref(w, rets[0].value)
-    if not (isinstance(rv, ast.Call) and call_name(rv) == "_points_in_poly"):
+    if not (isinstance(rv, ast.Call) and resolved_callee(
+            repo, PNPY, rv) in ((None, "_points_in_poly"),
+                                ("_pnpoly", "_points_in_poly"))):
         raise AnalysisError("pnpoly.points_in_poly: the value returned "
                             f"`{short(rv, 40)}` is not a call of "
                             "_points_in_poly")
@@ -887,7 +889,7 @@ def r152(ctx, repo):
     if len(fpar) != 3:
         raise AnalysisError(f"PolygonFilter.filter: parameters {fpar}")
     _, DX, DY = fpar
-    calls = find_calls(filt, name="points_in_poly")
+    calls = find_calls(filt, attr="points_in_poly")
     if len(calls) != 1:
         raise AnalysisError("PolygonFilter.filter: points_in_poly call lost")
     call = calls[0]
@@ -953,7 +955,7 @@ def r152(ctx, repo):
     # PolygonFilter.point_in_poly uses the same routine
     pp = repo.func(POLY, "PolygonFilter.point_in_poly")
     ppar = params_of(pp)
-    calls = find_calls(pp, name="points_in_poly")
+    calls = find_calls(pp, attr="points_in_poly")
     ok = False
     if len(calls) != 1 or len(ppar) != 2:
         raise AnalysisError("PolygonFilter.point_in_poly: call of "
@@ -1105,8 +1107,9 @@ def _copy_inversion(ctx, repo):
             or txt(rv.func) == "type(self)")):
         raise AnalysisError("PolygonFilter.copy: the value returned is not a "
                             "new PolygonFilter")
-    kws = {kw.arg: kw.value for kw in rv.keywords if kw.arg}
-    if rv.args or "inverted" not in kws:
+    init_par = params_of(repo.func(POLY, "PolygonFilter.__init__"))[1:]
+    kws = bind_args(rv, init_par, "PolygonFilter.copy")
+    if "inverted" not in kws:
         raise AnalysisError("PolygonFilter.copy: constructor arguments not "
                             "understood")
     body = [x for x in cp.body[:-1] if not (
@@ -1199,7 +1202,45 @@ def single_assign_loose(func, name):
             and n.targets[0].id == name]
 
 
+def module_aliases(repo, rel):
+    """{local name: module tail} for `import a.b as x`, `from . import m
+    [as x]`, `from .pkg import m [as x]` (the latter only when m is not a
+    known function import – decided by the caller)"""
+    out = {}
+    for n in repo.tree(rel).body:
+        if isinstance(n, ast.Import):
+            for a in n.names:
+                out[a.asname or a.name.split(".")[0]] = a.name.split(".")[-1]
+        elif isinstance(n, ast.ImportFrom):
+            for a in n.names:
+                out.setdefault(a.asname or a.name, a.name)
+    return out
+
+
+def resolved_callee(repo, rel, call):
+    """(module tail or None, function name) of a call `f(..)` or
+    `<module alias>.f(..)`"""
+    f = call.func
+    if isinstance(f, ast.Name):
+        return None, f.id
+    if isinstance(f, ast.Attribute) and isinstance(f.value, ast.Name):
+        al = module_aliases(repo, rel)
+        if f.value.id in al:
+            return al[f.value.id], f.attr
+    return None, None
+
+
 def _imports(repo, rel, mod_tail, name):
+    for n in repo.tree(rel).body:
+        # the module itself is imported and the function used through it
+        if isinstance(n, ast.ImportFrom) and any(
+                a.name == mod_tail for a in n.names):
+            alias = [a.asname or a.name for a in n.names
+                     if a.name == mod_tail][0]
+            if any(isinstance(c, ast.Attribute) and c.attr == name
+                   and isinstance(c.value, ast.Name) and c.value.id == alias
+                   for c in ast.walk(repo.tree(rel))):
+                return True
     for n in repo.tree(rel).body:
         if isinstance(n, ast.ImportFrom) and (n.module or "").split(
                 ".")[-1] == mod_tail:
@@ -2416,4 +2457,41 @@ TWINS = [
        "            np.invert(f, out=f)\n\n"
        "        logger.debug(\"polygon filter applied to %d events\", "
        "f.size)\n        return f\n")]),
+    ('refactoring 4: compiled module imported under an alias', PNPY,
+     [('from ._pnpoly import _grid_points_in_poly, _points_in_poly\n',
+       '# compiled implementation (cython extension module)\n'
+       'from . import _pnpoly as _pnpoly_cy\n'),
+      ('    return _grid_points_in_poly(shape, verts)\n',
+       '    return _pnpoly_cy._grid_points_in_poly(shape, verts)\n'),
+      ('    return _points_in_poly(points, verts)\n',
+       '    return _pnpoly_cy._points_in_poly(points, verts)\n')]),
+    ('refactoring 4: keyword arguments made positional', POLY,
+     [('            self._load(filename, unique_id=unique_id)\n',
+       '            self._load(filename, unique_id)\n'),
+      ('        return PolygonFilter(axes=self.axes,\n'
+       '                             points=self.points,\n'
+       '                             name=self.name,\n'
+       '                             inverted=inverted)\n'
+       '\n'
+       '    def filter(self, datax, datay):\n'
+       '        """Filter a set of datax and datay according to '
+       '`self.points`"""\n'
+       '        points = np.zeros((datax.shape[0], 2), dtype=np.float64)\n'
+       '        points[:, 0] = datax\n'
+       '        points[:, 1] = datay\n'
+       '        f = points_in_poly(points=points, verts=self.points)\n',
+       '        # positional order of `__init__`: axes, points, inverted, '
+       'name\n'
+       '        return PolygonFilter(self.axes, self.points, inverted, '
+       'self.name)\n'
+       '\n'
+       '    def filter(self, datax, datay):\n'
+       '        """Filter a set of datax and datay according to '
+       '`self.points`"""\n'
+       '        points = np.zeros((datax.shape[0], 2), dtype=np.float64)\n'
+       '        points[:, 0] = datax\n'
+       '        points[:, 1] = datay\n'
+       '        f = points_in_poly(points, self.points)\n'),
+      ('        f = points_in_poly(points=points, verts=np.array(poly))\n',
+       '        f = points_in_poly(points, np.array(poly))\n')]),
 ]
